@@ -1297,6 +1297,82 @@ func extractStubgen(p *pkgs, out string) {
 		l.printf("(%s, %v, %s, %s, %v, %v)", leanStr(b.cond), b.incr, leanStr(b.callee), leanStr(b.path), b.indexed, b.tail)
 	}
 	l.printf("]\n")
+	// doCodeGen: the loops over the request's files (what each calls, in source order) and the ways a loop is left
+	// without an error; generateChanStubs: what it does with a file that has no services
+	{
+		_, dg := p.funcDecl(mod+"/cmd/protoc-gen-grpchan", "doCodeGen")
+		if dg == nil {
+			fail("cmd/protoc-gen-grpchan", "codegenLoops", "doCodeGen not found")
+		} else {
+			var loops [][]string
+			var exits []string
+			ast.Inspect(dg, func(n ast.Node) bool {
+				rs, ok := n.(*ast.RangeStmt)
+				if !ok {
+					return true
+				}
+				if sel, ok := rs.X.(*ast.SelectorExpr); !ok || sel.Sel.Name != "Files" {
+					return true
+				}
+				var calls []string
+				seen := map[string]bool{}
+				ast.Inspect(rs.Body, func(m ast.Node) bool {
+					switch e := m.(type) {
+					case *ast.CallExpr:
+						name := ""
+						switch f := e.Fun.(type) {
+						case *ast.SelectorExpr:
+							name = f.Sel.Name
+						case *ast.Ident:
+							name = f.Name
+						}
+						if name != "" && !seen[name] && name != "GetName" && name != "Errorf" {
+							seen[name] = true
+							calls = append(calls, name)
+						}
+					case *ast.BranchStmt:
+						exits = append(exits, e.Tok.String())
+					case *ast.ReturnStmt:
+						if len(e.Results) == 1 {
+							if id, ok := e.Results[0].(*ast.Ident); ok && id.Name == "nil" {
+								exits = append(exits, "return nil")
+							}
+						}
+					}
+					return true
+				})
+				loops = append(loops, calls)
+				return true
+			})
+			l.printf("/-- doCodeGen: per loop over req.Files, the functions called in its body; non-error exits from inside those loops -/\ndef codegenLoops : List (List String) := [")
+			for i, c := range loops {
+				if i > 0 {
+					l.printf(", ")
+				}
+				l.printf("[")
+				for j, n := range c {
+					if j > 0 {
+						l.printf(", ")
+					}
+					l.printf("%s", leanStr(n))
+				}
+				l.printf("]")
+			}
+			l.printf("]\ndef codegenLoopPlainExits : List String := [")
+			for i, e := range exits {
+				if i > 0 {
+					l.printf(", ")
+				}
+				l.printf("%s", leanStr(e))
+			}
+			l.printf("]\n")
+		}
+		first := "?"
+		if len(fd.Body.List) > 0 {
+			first = exprText(pk.Fset, fd.Body.List[0])
+		}
+		l.printf("/-- first statement of generateChanStubs -/\ndef stubgenNoServices : String := %s\n", leanStr(first))
+	}
 	must(l.finish(out))
 }
 
